@@ -20,7 +20,7 @@ func init() {
 		Prop:   "C16",
 		Run:    run,
 		Replay: replay,
-		Rule: "E1 over (type x string): types are compiled from YANG text by the real compiler (every integer width signed/unsigned without range, with one range, with multi-part ranges touching the type bounds; decimal64 with every fraction-digits value 1..18 with and without ranges; strings with lengths and 0-2 patterns; enumeration; boolean; empty; identityref over a two-module hierarchy; unions nested two deep; custom error-message/error-app-tag) and Type.Validate is called on every probe string (on the type compiled alone, and again on the same type as one leaf of a module that holds all types of the run, string and integer types written as refinements of a shared three-level typedef chain): every bound and bound +-1,2 units in canonical, '+'-signed, zero-padded and trailing-zero spellings, 18-20 digit values, lexical near misses, and for strings every string of 0-4 characters over {a,b,c,1,e-acute,U+1D11E}. " +
+		Rule: "E1 over (type x string): types are compiled from YANG text by the real compiler (every integer width signed/unsigned without range, with one range, with multi-part ranges touching the type bounds; decimal64 with every fraction-digits value 1..18 with and without ranges; strings with lengths and 0-2 patterns; enumeration; boolean; empty; identityref over a two-module hierarchy; unions nested two deep; custom error-message/error-app-tag) and Type.Validate is called on every probe string (on the type compiled alone, and again on the same type as one leaf of a module that holds all types of the run, string and integer types written as refinements of a shared three-level typedef chain): every bound and bound +-1,2 units in canonical, '+'-signed, zero-padded and trailing-zero spellings, 18-20 digit values, lexical near misses, and for strings every string of 0-4 characters over {a,b,c,1,e-acute,U+1D11E}. Histories of length two on one type object: for 12 (thorough 24) earlier values per type, members and non-members spread over the probe list, Validate(earlier) is followed by the full check of each of 2000 (thorough: all) later probes on the same object; an answer that differs from the one a fresh object gives is reported with both values. " +
 			"The reference decides membership exactly with math/big and character counts. On rejection the error must carry the path and the custom message/app-tag when defined. Non-trivial = a probe within 2 units of a bound, a multi-byte string, or a union/identityref probe.",
 		Bound: map[string]string{
 			"quick":    "about 110 types x their probe sets",
@@ -50,6 +50,7 @@ type rec struct {
 	Spec     yangval.Spec `json:"spec"`
 	Value    string       `json:"value_quoted"`
 	Combined bool         `json:"combined,omitempty"` // the type was one leaf of the module holding all types of the run
+	After    string       `json:"after_value_quoted,omitempty"` // history: this value was validated on the same type object first
 }
 
 type pathGetter interface {
@@ -545,9 +546,68 @@ func run(c *engine.Ctx) {
 				c.Report(x)
 			}
 		}
+		historyPass(c, si, t, spec)
 		if si%40 == 3 {
 			c.Sample(map[string]any{"type": spec.Yang(), "probes": len(spec.Probes())})
 		}
+	}
+}
+
+// historyPass uses one type object twice: for every earlier value a of a small history alphabet (members
+// and non-members, spread over the probe list) and every later probe b, Validate(a) is followed by the
+// full check of b on the same object. A type object is an immutable description of a value space: what an
+// earlier validation saw (accepted or rejected) may not change the answer, the path, the message or the
+// app-tag of a later one.
+func historyPass(c *engine.Ctx, si int, t schema.Type, spec yangval.Spec) {
+	probes := spec.Probes()
+	var mem, non []string
+	for _, v := range probes {
+		if want, settled := spec.Contains(v); settled && want {
+			mem = append(mem, v)
+		} else if settled {
+			non = append(non, v)
+		}
+	}
+	spread := func(l []string, n int) []string {
+		if len(l) <= n {
+			return l
+		}
+		out := make([]string, 0, n)
+		for i := 0; i < n; i++ {
+			out = append(out, l[i*(len(l)-1)/(n-1)])
+		}
+		return out
+	}
+	nh, nb := 12, 2000
+	if !c.Quick() {
+		nh, nb = 24, 1 << 30
+	}
+	hist := append(spread(mem, nh), spread(non, nh)...)
+	later := spread(probes, nb)
+	for hi, a := range hist {
+		if !c.Case(fmt.Sprintf("%d:history:%d", si, hi)) {
+			continue
+		}
+		for _, b := range later {
+			func() {
+				defer func() { recover() }()
+				t.Validate(valCtx{}, []string{"l", a}, a)
+			}()
+			c.Add("states", 1)
+			c.Add("transitions", 2)
+			c.Add("history_pairs", 1)
+			for _, x := range checkOne(t, spec, b) {
+				// the same probe on a fresh object decides whether the history is what matters
+				if ft, _ := typeOf(spec); ft != nil && len(checkOne(ft, spec, b)) > 0 {
+					continue // reported by the plain pass
+				}
+				x.Key += ":after-an-earlier-validation-on-the-same-type"
+				x.Witness += fmt.Sprintf(" after value %q", a)
+				x.Replay = engine.JSON(rec{Spec: spec, Value: strconv.Quote(b), After: strconv.Quote(a)})
+				c.Report(x)
+			}
+		}
+		c.Nontrivial()
 	}
 }
 
@@ -582,6 +642,18 @@ func replay(c *engine.Ctx, sub string, raw json.RawMessage) []engine.Violation {
 	t, msg := typeOf(r.Spec)
 	if t == nil {
 		return []engine.Violation{{Key: "type-does-not-compile", Detail: msg}}
+	}
+	if r.After != "" {
+		a, _ := strconv.Unquote(r.After)
+		func() {
+			defer func() { recover() }()
+			t.Validate(valCtx{}, []string{"l", a}, a)
+		}()
+		vs := checkOne(t, r.Spec, v)
+		for i := range vs {
+			vs[i].Key += ":after-an-earlier-validation-on-the-same-type"
+		}
+		return vs
 	}
 	return checkOne(t, r.Spec, v)
 }
